@@ -231,54 +231,72 @@ fn hist_json(ops: &[Op], cap: usize, hist: &[u8]) -> J {
 /// Checks the last operation of `hist` against the model and returns the key
 /// of the state reached.
 fn step<const CAP: usize>(ops: &[Op], hist: &[u8], g: &mut Groups, st: &mut Stats) -> Option<Found> {
-    // model along the history (deterministic given the observed alternative at each step)
+    // The model is nondeterministic where the property is: after a faulty unit either all or
+    // none of the later units of that message run (C06).  Follow every alternative that is
+    // consistent with the observed responses; at the end one of them must also match the
+    // drained queue.
     let (outs, drained, count) = execute::<CAP>(ops, hist)?;
     st.execs += 1;
-    let mut m = Model::default();
+    let mut cands: Vec<Model> = vec![Model::default()];
     for (i, &h) in hist.iter().enumerate() {
-        let alts = m.apply(CAP, &ops[h as usize]);
-        match alts.iter().find(|a| a.1 == outs[i]) {
-            Some(a) => m = a.0.clone(),
-            None => {
-                if i + 1 == hist.len() {
-                    let what = if ops[h as usize].micro.contains(&Micro::Pop) { "read-response" } else { "count-response" };
-                    let feat = vec![("kind", what.to_string()), ("cap", CAP.to_string()), ("queue_full_before", (m.q.len() == CAP).to_string())];
-                    g.add("queue-model", &feat, (hist.len(), hist), || {
-                        (
-                            hist_json(ops, CAP, hist),
-                            format!(
-                                "CAP={CAP} after {:?}: response \"{}\" but the reference queue {:?} answers \"{}\"",
-                                hist.iter().map(|&h| show(ops[h as usize].text)).collect::<Vec<_>>(),
-                                show(&outs[i]),
-                                m.q.iter().map(|e| e.number()).collect::<Vec<_>>(),
-                                show(&alts[0].1)
-                            ),
-                        )
-                    });
+        let mut next: Vec<Model> = vec![];
+        let mut first_expected: Option<Vec<u8>> = None;
+        for m in &cands {
+            for (m2, out) in m.apply(CAP, &ops[h as usize]) {
+                if first_expected.is_none() {
+                    first_expected = Some(out.clone());
                 }
-                return None; // do not explore beyond a diverged state
+                if out == outs[i] && !next.iter().any(|x: &Model| x.q == m2.q && x.pushes == m2.pushes && x.pops == m2.pops) {
+                    next.push(m2);
+                }
             }
         }
+        if next.is_empty() {
+            if i + 1 == hist.len() {
+                let m = &cands[0];
+                let what = if ops[h as usize].micro.contains(&Micro::Pop) { "read-response" } else { "count-response" };
+                let feat = vec![("kind", what.to_string()), ("cap", CAP.to_string()), ("queue_full_before", (m.q.len() == CAP).to_string())];
+                g.add("queue-model", &feat, (hist.len(), hist), || {
+                    (
+                        hist_json(ops, CAP, hist),
+                        format!(
+                            "CAP={CAP} after {:?}: response \"{}\" but the reference queue {:?} answers \"{}\"",
+                            hist.iter().map(|&h| show(ops[h as usize].text)).collect::<Vec<_>>(),
+                            show(&outs[i]),
+                            m.q.iter().map(|e| e.number()).collect::<Vec<_>>(),
+                            show(&first_expected.unwrap_or_default())
+                        ),
+                    )
+                });
+            }
+            return None; // do not explore beyond a diverged state
+        }
+        cands = next;
     }
     // contents: real queue drained through the real pop_error
     let real: Vec<(i16, String)> = drained.iter().map(err_key).collect();
+    let matching = cands.iter().find(|m| m.q.iter().map(err_key).collect::<Vec<_>>() == real && count == m.q.len());
+    let m = match matching {
+        Some(m) if count <= CAP => m.clone(),
+        _ => {
+            let model: Vec<(i16, String)> = cands[0].q.iter().map(err_key).collect();
+            let kind = if count > CAP { "capacity-exceeded" } else if count != cands[0].q.len() { "count" } else { "contents" };
+            let feat = vec![("kind", kind.to_string()), ("cap", CAP.to_string())];
+            g.add("queue-model", &feat, (hist.len(), hist), || {
+                (
+                    hist_json(ops, CAP, hist),
+                    format!(
+                        "CAP={CAP} after {:?}: real queue holds {:?} (count {count}) but the reference queue holds {:?}",
+                        hist.iter().map(|&h| show(ops[h as usize].text)).collect::<Vec<_>>(),
+                        real,
+                        model
+                    ),
+                )
+            });
+            return None;
+        }
+    };
     let model: Vec<(i16, String)> = m.q.iter().map(err_key).collect();
-    if real != model || count != m.q.len() || count > CAP {
-        let kind = if count > CAP { "capacity-exceeded" } else if count != m.q.len() { "count" } else { "contents" };
-        let feat = vec![("kind", kind.to_string()), ("cap", CAP.to_string())];
-        g.add("queue-model", &feat, (hist.len(), hist), || {
-            (
-                hist_json(ops, CAP, hist),
-                format!(
-                    "CAP={CAP} after {:?}: real queue holds {:?} (count {count}) but the reference queue holds {:?}",
-                    hist.iter().map(|&h| show(ops[h as usize].text)).collect::<Vec<_>>(),
-                    real,
-                    model
-                ),
-            )
-        });
-        return None;
-    }
     if model.iter().any(|e| e.0 == -350) {
         st.overflow_states += 1;
     }
